@@ -7,12 +7,14 @@ package main
 // from the same function, so the generator only has to produce source text.
 
 import (
+	"bytes"
 	"encoding/hex"
 	"fmt"
 	"os"
 	"path/filepath"
 	"strings"
 
+	"github.com/tdewolff/minify/v2"
 	minjs "github.com/tdewolff/minify/v2/js"
 	"github.com/tdewolff/parse/v2"
 	pjs "github.com/tdewolff/parse/v2/js"
@@ -302,7 +304,8 @@ func runStmtCases(seed uint64, n int, outDir string, extra map[string]interface{
 	defer fin.Close()
 	defer fout.Close()
 	defer fsrc.Close()
-	done, skipped, changed, loops := 0, 0, 0, 0
+	done, skipped, changed, loops, printed, printSkipped := 0, 0, 0, 0, 0, 0
+	mm := minify.New()
 	skipWhy := map[string]int{}
 	rules := map[string]int{}
 	for k := 0; k < n; k++ {
@@ -328,6 +331,26 @@ func runStmtCases(seed uint64, n int, outDir string, extra map[string]interface{
 		fmt.Fprintf(fout, "%s\n", out)
 		fmt.Fprintf(fsrc, "%s\n", src)
 		done++
+		// the whole pipeline on the same list: the tokens js.Minify writes for the function body must be those of the
+		// model's optimiser + statement printer + expression printer (function bodies without opaque statements)
+		if !g.loop && !strings.Contains(" "+in, " O ") {
+			var mo bytes.Buffer
+			if err := (&minjs.Minifier{KeepVarNames: true}).Minify(mm, &mo, strings.NewReader(src), nil); err == nil {
+				toks := jsTokens(mo.String())
+				pre, suf := []string{"x0", "=", "function", "(", ")", "{"}, []string{"}", "(", ")"} // the parentheses around the function are dropped
+				if len(toks) >= len(pre)+len(suf) && strings.Join(toks[:len(pre)], " ") == strings.Join(pre, " ") && strings.Join(toks[len(toks)-len(suf):], " ") == strings.Join(suf, " ") {
+					fmt.Fprintf(fin, "jsstmtp\t%s\n", in)
+					fmt.Fprintf(fout, "%s\n", strings.Join(toks[len(pre):len(toks)-len(suf)], " "))
+					fmt.Fprintf(fsrc, "%s\n", src)
+					fmt.Fprintf(fin, "jsstmtr\t%s\n", in)
+					fmt.Fprintf(fout, "ok\n")
+					fmt.Fprintf(fsrc, "%s\n", src)
+					printed++
+				} else {
+					printSkipped++
+				}
+			}
+		}
 		if in != out {
 			changed++
 		}
@@ -339,6 +362,8 @@ func runStmtCases(seed uint64, n int, outDir string, extra map[string]interface{
 		}
 	}
 	extra["jsstmt_lists"] = done
+	extra["jsstmt_printed_bodies"] = printed
+	extra["jsstmt_printed_bodies_skipped"] = printSkipped
 	extra["jsstmt_loop_bodies"] = loops
 	extra["jsstmt_skipped"] = skipped
 	extra["jsstmt_skip_reasons"] = skipWhy
